@@ -66,6 +66,217 @@ pub fn has_bool_test(q: &Query) -> bool {
     found
 }
 
+/// an IN list with an element containing a CASE (known finding `in-list-case-element`)
+pub fn in_list_case_element(q: &Query) -> bool {
+    let mut found = false;
+    refsql::visit_exprs(q, &mut |e| {
+        if let Expr::InList { list, .. } = e {
+            for el in list {
+                refsql::eval::walk_expr_shallow(el, &mut |x| {
+                    if matches!(x, Expr::Case { .. }) {
+                        found = true
+                    }
+                });
+            }
+        }
+    });
+    found
+}
+
+/// a FROM tree with two or more joins of which one has IS NOT DISTINCT FROM in its ON (known finding `join-mixed-null-equality`)
+pub fn join_mixed_null_equality(q: &Query) -> bool {
+    fn count(t: &TableRef, joins: &mut usize, indf: &mut bool) {
+        if let TableRef::Join { left, right, on, .. } = t {
+            *joins += 1;
+            if let Some(o) = on {
+                refsql::eval::walk_expr_shallow(o, &mut |x| {
+                    if matches!(x, Expr::IsDistinctFrom { negated: true, .. }) {
+                        *indf = true
+                    }
+                });
+            }
+            count(left, joins, indf);
+            count(right, joins, indf);
+        }
+    }
+    fn set(e: &SetExpr, found: &mut bool) {
+        match e {
+            SetExpr::Select(s) => {
+                if let Some(t) = &s.from {
+                    let (mut j, mut i) = (0, false);
+                    count(t, &mut j, &mut i);
+                    if j >= 2 && i {
+                        *found = true;
+                    }
+                }
+            }
+            SetExpr::SetOp { left, right, .. } => {
+                set(left, found);
+                set(right, found)
+            }
+            SetExpr::Query(_) => {}
+        }
+    }
+    let mut found = false;
+    refsql::visit_queries(q, &mut |qq| set(&qq.body, &mut found));
+    found
+}
+
+/// EXISTS / IN / ANY / ALL over a correlated subquery whose select aggregates without GROUP BY
+/// (known finding `pred-subquery-correlated-global-aggregate`)
+pub fn pred_subquery_correlated_global_agg(q: &Query) -> bool {
+    let mut found = false;
+    refsql::visit_exprs(q, &mut |e| {
+        let sq = match e {
+            Expr::Exists { q, .. } | Expr::InSubquery { q, .. } | Expr::Quantified { q, .. } => q,
+            _ => return,
+        };
+        if let SetExpr::Select(s) = &sq.body {
+            let global = (matches!(s.group_by, refsql::GroupBy::None) && s.items.iter().any(|i| refsql::eval::contains_agg(&i.expr))) || has_empty_grouping_set(&s.group_by);
+            if global && refsql::has_outer_refs(sq) {
+                found = true;
+            }
+        }
+    });
+    found
+}
+
+fn has_empty_grouping_set(g: &refsql::GroupBy) -> bool {
+    match g {
+        refsql::GroupBy::Rollup(_) | refsql::GroupBy::Cube(_) => true,
+        refsql::GroupBy::Sets(sets) => sets.iter().any(|s| s.is_empty()),
+        _ => false,
+    }
+}
+
+/// A filter sits directly above an aggregate with an empty grouping set: HAVING over ROLLUP / CUBE / GROUPING
+/// SETS(.., ()), or an outer WHERE over a derived table that is a global / grouping-set aggregate
+/// (known finding `filter-below-empty-grouping-set`).
+pub fn filter_above_empty_grouping_set(q: &Query) -> bool {
+    fn agg_with_empty_set(s: &refsql::Select) -> bool {
+        has_empty_grouping_set(&s.group_by) || (matches!(s.group_by, refsql::GroupBy::None) && s.items.iter().any(|i| refsql::eval::contains_agg(&i.expr)))
+    }
+    fn derived_empty_set(t: &TableRef) -> bool {
+        match t {
+            TableRef::Derived { q, .. } => matches!(&q.body, SetExpr::Select(s) if agg_with_empty_set(s)),
+            TableRef::Join { left, right, .. } => derived_empty_set(left) || derived_empty_set(right),
+            _ => false,
+        }
+    }
+    fn set(e: &SetExpr, found: &mut bool) {
+        match e {
+            SetExpr::Select(s) => {
+                if s.having.is_some() && has_empty_grouping_set(&s.group_by) {
+                    *found = true;
+                }
+                if s.where_.is_some() && s.from.as_ref().map(derived_empty_set).unwrap_or(false) {
+                    *found = true;
+                }
+            }
+            SetExpr::SetOp { left, right, .. } => {
+                set(left, found);
+                set(right, found)
+            }
+            SetExpr::Query(_) => {}
+        }
+    }
+    let mut found = false;
+    refsql::visit_queries(q, &mut |qq| set(&qq.body, &mut found));
+    found
+}
+
+/// a window call in a query that reads a generate_series / range of at most one value
+/// (known finding `window-over-single-value-series`)
+pub fn window_over_single_value_series(q: &Query) -> bool {
+    let mut has_win = false;
+    refsql::visit_exprs(q, &mut |e| {
+        if matches!(e, Expr::Win(_)) {
+            has_win = true
+        }
+    });
+    if !has_win {
+        return false;
+    }
+    fn tref(t: &TableRef, found: &mut bool) {
+        match t {
+            TableRef::Series { start, stop, step, exclusive, .. } => {
+                let n = if *step > 0 { (stop - start + if *exclusive { 0 } else { 1 } + step - 1).max(0) / step } else { 2 };
+                if n <= 1 {
+                    *found = true
+                }
+            }
+            TableRef::Join { left, right, .. } => {
+                tref(left, found);
+                tref(right, found)
+            }
+            _ => {}
+        }
+    }
+    fn set(e: &SetExpr, found: &mut bool) {
+        match e {
+            SetExpr::Select(s) => {
+                if let Some(t) = &s.from {
+                    tref(t, found)
+                }
+            }
+            SetExpr::SetOp { left, right, .. } => {
+                set(left, found);
+                set(right, found)
+            }
+            SetExpr::Query(_) => {}
+        }
+    }
+    let mut found = false;
+    refsql::visit_queries(q, &mut |qq| set(&qq.body, &mut found));
+    found
+}
+
+/// LEFT / RIGHT join whose ON has a conjunct `<literal> = <column>` (known finding `outer-join-on-literal-eq-column`)
+pub fn outer_join_literal_eq_column(q: &Query) -> bool {
+    fn conj(e: &Expr, found: &mut bool) {
+        match e {
+            Expr::Bin(refsql::BinOp::And, l, r) => {
+                conj(l, found);
+                conj(r, found)
+            }
+            Expr::Bin(refsql::BinOp::Eq, l, r) => {
+                if matches!(**l, Expr::Lit(_)) && matches!(**r, Expr::Col { .. }) {
+                    *found = true
+                }
+            }
+            _ => {}
+        }
+    }
+    fn tref(t: &TableRef, found: &mut bool) {
+        if let TableRef::Join { kind, left, right, on } = t {
+            if matches!(kind, JoinKind::Left | JoinKind::Right) {
+                if let Some(o) = on {
+                    conj(o, found)
+                }
+            }
+            tref(left, found);
+            tref(right, found);
+        }
+    }
+    fn set(e: &SetExpr, found: &mut bool) {
+        match e {
+            SetExpr::Select(s) => {
+                if let Some(t) = &s.from {
+                    tref(t, found)
+                }
+            }
+            SetExpr::SetOp { left, right, .. } => {
+                set(left, found);
+                set(right, found)
+            }
+            SetExpr::Query(_) => {}
+        }
+    }
+    let mut found = false;
+    refsql::visit_queries(q, &mut |qq| set(&qq.body, &mut found));
+    found
+}
+
 pub fn has_intersect_except_all(q: &Query) -> bool {
     fn set(e: &SetExpr, found: &mut bool) {
         if let SetExpr::SetOp { op, all, left, right } = e {
@@ -423,6 +634,24 @@ impl Property for C01 {
         }
         if has_intersect_except_all(q) {
             return Some("intersect-except-all".into());
+        }
+        if in_list_case_element(q) {
+            return Some("in-list-case-element".into());
+        }
+        if join_mixed_null_equality(q) {
+            return Some("join-mixed-null-equality".into());
+        }
+        if outer_join_literal_eq_column(q) {
+            return Some("outer-join-on-literal-eq-column".into());
+        }
+        if filter_above_empty_grouping_set(q) {
+            return Some("filter-below-empty-grouping-set".into());
+        }
+        if window_over_single_value_series(q) {
+            return Some("window-over-single-value-series".into());
+        }
+        if pred_subquery_correlated_global_agg(q) {
+            return Some("pred-subquery-correlated-global-aggregate".into());
         }
         // outcome-keyed signatures: construct present AND the engine answers with exactly that internal error
         let (bt, cw, nu) = (has_bool_test(q), case_then_in_when(q), has_nested_union(q));
